@@ -235,6 +235,62 @@ pub fn run_obs(args: &[String]) -> i32 {
         }
         w.put(&Value::Object(o));
     }
+    // --- decoding is a function of the bytes (Etf!Parse has no state): after a history of rejected inputs on this very
+    // thread -- too deeply nested terms of every container kind, truncations of every vector, size fields that promise
+    // more than there is -- every vector must decode to what it decoded to before
+    if opts["history"].as_bool().unwrap_or(false) {
+        let first: Vec<(Value, Value)> = vectors.iter().map(|rec| { let b = bytes_of(&rec["enc"]); (obs_owned(&b), if do_borrowed { obs_borrowed(&b) } else { Value::Null }) }).collect();
+        let mut rejected = 0u64;
+        let mut feed = |inp: &[u8]| {
+            let a = catch(|| erltf::decode(inp).is_ok());
+            let b = catch(|| erltf::decode_borrowed(inp).is_ok());
+            if !matches!(a, Ok(true)) { rejected += 1; }
+            let _ = b;
+        };
+        for round in 0..3 {
+            for depth in [257usize, 300, 1000] {
+                for kind in 0..4 {
+                    let mut inp = vec![131u8];
+                    for _ in 0..depth {
+                        match kind {
+                            0 => inp.extend_from_slice(&[108, 0, 0, 0, 1]),          // LIST_EXT, one element
+                            1 => inp.extend_from_slice(&[104, 1]),                   // SMALL_TUPLE_EXT, one element
+                            2 => inp.extend_from_slice(&[116, 0, 0, 0, 1, 97, 1]),   // MAP_EXT, one pair, the value nests
+                            _ => inp.extend_from_slice(&[105, 0, 0, 0, 1]),          // LARGE_TUPLE_EXT
+                        }
+                    }
+                    inp.push(106);
+                    if kind == 0 { for _ in 0..depth { inp.push(106); } }
+                    for _ in 0..(if round == 0 { 90 } else { 5 }) {
+                        feed(&inp);
+                    }
+                }
+            }
+            for rec in vectors.iter().take(400) {
+                let b = bytes_of(&rec["enc"]);
+                if b.len() > 2 && b.len() < 4000 {
+                    feed(&b[..b.len() / 2]);
+                    feed(&b[..b.len() - 1]);
+                    let mut m = b.clone();
+                    m[1] = 0xFF;
+                    feed(&m);
+                }
+            }
+            feed(&[131, 109, 255, 255, 255, 255, 1]);
+            feed(&[131, 108, 255, 255, 255, 255]);
+            feed(&[131, 80, 0, 0, 0, 9, 1, 2, 3]);
+        }
+        let mut changed = Vec::new();
+        for (rec, (o1, b1)) in vectors.iter().zip(first.iter()) {
+            let b = bytes_of(&rec["enc"]);
+            let o2 = obs_owned(&b);
+            let b2 = if do_borrowed { obs_borrowed(&b) } else { Value::Null };
+            if (o2 != *o1 || b2 != *b1) && changed.len() < 20 {
+                changed.push(json!({"id": rec["id"], "bytes": bytes_json(&b[..b.len().min(64)]), "before": o1, "after": o2, "borrowed_before": b1, "borrowed_after": b2}));
+            }
+        }
+        w.put(&json!({"id": "__history__", "vectors": vectors.len(), "rejected_inputs_fed": rejected, "changed": changed}));
+    }
     w.finish();
     0
 }
